@@ -529,6 +529,85 @@ fn trap_vs_abort(ctx: &Ctx) {
 pub fn run_c16b(ctx: &Ctx) {
     ctlrun::drive(ctx, if ctx.quick() { 80_000 } else { 1_500_000 }, C16_CFG, "C16B", false, false, 0, 1616);
     readonly_routes(ctx);
+    attributes_from_functions(ctx);
+}
+
+/// `readonly` and `export` inside a function (any depth) act on the variable that is visible there:
+/// the global one unless a local hides it; value, read-only mark and export flag are then seen
+/// inside the function and, for a global, persist after the return.
+fn attributes_from_functions(ctx: &Ctx) {
+    #[derive(Clone, Copy)]
+    struct Want {
+        value: &'static str,
+        readonly: bool,
+        exported: bool,
+    }
+    let w = |value: &'static str, readonly: bool, exported: bool| Want { value, readonly, exported };
+    // (body of the function, variable looked at, state inside, state after the return)
+    let cases: Vec<(&str, &str, Want, Want)> = vec![
+        ("readonly g", "g", w("1", true, false), w("1", true, false)),
+        ("readonly g=new", "g", w("new", true, false), w("new", true, false)),
+        ("typeset g=l; readonly g", "g", w("l", true, false), w("1", false, false)),
+        ("typeset g; readonly g=v", "g", w("v", true, false), w("1", false, false)),
+        ("export g", "g", w("1", false, true), w("1", false, true)),
+        ("export g=new", "g", w("new", false, true), w("new", false, true)),
+        ("typeset g=l; export g", "g", w("l", false, true), w("1", false, false)),
+        ("readonly h=new", "h", w("new", true, false), w("new", true, false)),
+        ("export h=new", "h", w("new", false, true), w("new", false, true)),
+        ("readonly h", "h", w("UNSET", true, false), w("UNSET", true, false)),
+        ("export g; readonly g", "g", w("1", true, true), w("1", true, true)),
+        ("g=2; readonly g", "g", w("2", true, false), w("2", true, false)),
+        ("readonly g; typeset x=1", "g", w("1", true, false), w("1", true, false)),
+        // (the first `=` separates name and value)
+        ("export g=a=b", "g", w("a=b", false, true), w("a=b", false, true)),
+        ("readonly h=x=y=z", "h", w("x=y=z", true, false), w("x=y=z", true, false)),
+        ("typeset g=p=q; export g", "g", w("p=q", false, true), w("1", false, false)),
+        ("typeset g==; readonly g", "g", w("=", true, false), w("1", false, false)),
+        ("export g=", "g", w("", false, true), w("", false, true)),
+    ];
+    let wrappers = ["f() { BODY; LOOK; }\nf\n", "f2() { BODY; }\nf() { f2; LOOK; }\nf\n", "f() { if true; then { BODY; }; fi; LOOK; }\nf\n", "f() { BODY; LOOK; }\nx=t f\n", "f() { eval 'BODY'; LOOK; }\nf\n"];
+    for (body, var, inside, after) in &cases {
+        for (wi, wr) in wrappers.iter().enumerate() {
+            // nested call: a `typeset` in f2 is local to f2, so f sees the global again
+            let inside = if wi == 1 && body.contains("typeset g") { *after } else { *inside };
+            let look = |tag: &str| format!("pvar {tag} {var}; ( {var}=zz; probe {tag}-written ) 2>/dev/null");
+            let script = format!("g=1\n{}{}\n", wr.replace("BODY", body).replace("LOOK", &look("in")), look("out"));
+            let out = crate::vsh::run_script(&script, Strategy::Fifo);
+            ctx.eval();
+            ctx.count("attributes_from_functions_cases", 1);
+            let mut problems = Vec::new();
+            for (tag, want) in [("in", inside), ("out", *after)] {
+                let pv = out.events.iter().find(|e| e.kind == "probe" && e.args.first().map(|a| a.as_str()) == Some(tag));
+                match pv {
+                    None => problems.push(format!("no look at `{tag}`")),
+                    Some(e) => {
+                        let (val, exp) = (e.args.get(1).cloned().unwrap_or_default(), e.args.get(2).map(|s| s == "exported").unwrap_or(false));
+                        if val != want.value {
+                            problems.push(format!("{tag}: ${var} is {val:?}, expected {:?}", want.value));
+                        }
+                        if exp != want.exported {
+                            problems.push(format!("{tag}: exported = {exp}, expected {}", want.exported));
+                        }
+                    }
+                }
+                let written = out.events.iter().any(|e| e.kind == "probe" && e.args.first().map(|a| a.as_str()) == Some(&format!("{tag}-written")));
+                if written == want.readonly {
+                    problems.push(format!("{tag}: an assignment to {var} {}, expected it to {}", if written { "succeeded" } else { "failed" }, if want.readonly { "fail (read-only)" } else { "succeed" }));
+                }
+            }
+            if out.end != crate::vsh::End::Done {
+                problems.push(format!("did not terminate: {:?}", out.end));
+            }
+            if problems.is_empty() {
+                ctx.nontrivial_str(&format!("attrfn|{body}|{wi}"));
+            } else {
+                ctx.violation(
+                    format!("attribute-from-function:{}", body.split(' ').next().unwrap_or("")),
+                    format!("`{body}` inside a function: {}\nscript:\n{script}stderr:\n{}", problems.join("; "), out.err()),
+                );
+            }
+        }
+    }
 }
 
 /// A read-only variable is never modified or unset by any route.
